@@ -412,6 +412,8 @@ func vObserveBytes(tag string, v []byte) { panic("verif intrinsic") }
 func vTry(f func()) bool               { panic("verif intrinsic") }
 func vOverlap(a, b []byte) bool        { panic("verif intrinsic") }
 func vLearnBits(x uint64, w int)       { panic("verif intrinsic") }
+func vAbstractCRC()                    { panic("verif intrinsic") }
+func vAbstractCRCFixedWidth()          { panic("verif intrinsic") }
 func vReplayVal(tag string, k int) (uint64, bool) { panic("verif intrinsic: native scenarios only") }
 func vWithTimeout(f func(), seconds int) bool     { panic("verif intrinsic: native scenarios only") }
 `
